@@ -118,7 +118,7 @@ LoopNext == LBegin \/ LShuffle \/ LSkip \/ LOverlap \/ LFourier \/ LUpdate \/ LI
 Shapes == {<<8, 8>>, <<9, 9>>, <<8, 12>>, <<7, 10>>}
 ProjCases(u) == {[k |-> "proj", variant |-> v, shape |-> s, wave |-> w, amp |-> a, double |-> d] :
                 v \in {"rpie", "sim_warmup", "sim", "mixed_warmup", "mixed", "ms"}, s \in Shapes,
-                w \in {"random", "real", "sparse_spectrum", "plane", "delta"}, a \in {"random", "with_zeros", "own", "constant"}, d \in BOOLEAN}
+                w \in {"random", "real", "sparse_spectrum", "plane", "delta", "zero"}, a \in {"random", "with_zeros", "own", "constant"}, d \in BOOLEAN}
 UpdateCases(u) == {[k |-> "update", shape |-> s, obj |-> <<s[1] + o[1], s[2] + o[2]>>, pos |-> p, alpha |-> al, beta |-> be, step |-> st, fix_probe |-> fp,
                  pcorr |-> pcr, double |-> d, probe |-> pr] :
                 s \in Shapes, o \in {<<0, 0>>, <<5, 3>>}, p \in {"integer", "wrapping", "half", "half_b", "fractional"}, al \in {"zero", "small", "half", "one"},
